@@ -40,6 +40,8 @@ pub struct TypeInfo {
 pub struct SpecWalk {
     pub types: Vec<TypeInfo>,
     pub index: HashMap<ElementType, usize>,
+    /// per version (index into ALL_VERSIONS): one way to reach a type using only edges that exist in that version
+    pub via_in_version: Vec<HashMap<ElementType, (ElementType, ElementName)>>,
 }
 
 impl SpecWalk {
@@ -69,7 +71,49 @@ impl SpecWalk {
                 }
             }
         }
-        SpecWalk { types, index }
+        // the same search restricted to the edges of one version at a time: a type can be reachable in a version through
+        // another parent than the one the search over all versions found first
+        let mut via_in_version = Vec::new();
+        for v in ALL_VERSIONS {
+            let bit = v as u32;
+            let mut via: HashMap<ElementType, (ElementType, ElementName)> = HashMap::new();
+            let mut seen: HashSet<ElementType> = HashSet::new();
+            let mut queue = VecDeque::new();
+            seen.insert(ElementType::ROOT);
+            queue.push_back(ElementType::ROOT);
+            while let Some(t) = queue.pop_front() {
+                for (name, sub, mask, _named) in t.sub_element_spec_iter() {
+                    if mask & bit != 0 && seen.insert(sub) {
+                        via.insert(sub, (t, name));
+                        queue.push_back(sub);
+                    }
+                }
+            }
+            via_in_version.push(via);
+        }
+        SpecWalk { types, index, via_in_version }
+    }
+
+    /// versions in which the type can be reached from the root
+    pub fn versions_mask(&self, t: ElementType) -> u32 {
+        if t == ElementType::ROOT {
+            return ALL_VERSION_MASK;
+        }
+        ALL_VERSIONS.iter().enumerate().filter(|(i, _)| self.via_in_version[*i].contains_key(&t)).fold(0, |m, (_, v)| m | *v as u32)
+    }
+
+    /// path from ROOT to the type that exists in the given version (root excluded); the mask of every step is the bit of the version
+    pub fn path_to_in(&self, t: ElementType, version: AutosarVersion) -> Option<Vec<(ElementType, ElementName, u32)>> {
+        let via = &self.via_in_version[version_index(version)];
+        let mut path = Vec::new();
+        let mut cur = t;
+        while cur != ElementType::ROOT {
+            let (parent, name) = via.get(&cur)?;
+            path.push((cur, *name, version as u32));
+            cur = *parent;
+        }
+        path.reverse();
+        Some(path)
     }
 
     /// path of (element name) from ROOT to the type, root excluded
